@@ -205,4 +205,9 @@ theorem dispatch_fold (rt : Str) (cd : Cd) (ms : List Msg) :
       obtain ⟨e1, e2⟩ := dispatch_other rt st m cd hown'
       exact ih _ _ (by rw [e1]; exact h1) (by rw [e2]; exact h2)
 
+theorem strsOf_map (l : List Str) : strsOf (l.map PyItem.str) = some l := by
+  induction l with
+  | nil => rfl
+  | cons x xs ih => simp [strsOf, ih]
+
 end MiniconfVerif.PyClient
